@@ -65,7 +65,7 @@ func commonCheck(e *Env, x *Exec, viol func(string, string, ...any)) {
 			top = d.H.Ht
 		}
 	}
-	for _, n := range []string{"A", "B", "C"} {
+	for _, n := range []string{"A", "B", "C", "D"} {
 		if d, ok := e.Notes["deliver:"+n].(delivery); ok {
 			acc += fmt.Sprintf("%s:%d=%v ", n, d.H.Ht, d.Err == nil)
 		}
@@ -121,9 +121,17 @@ func c07Scenarios(batch int) []Scenario {
 	var out []Scenario
 	out = append(out, Scenario{Name: "SL1-burst-during-sync", Batch: batch, Cfg: WCfg{N: 12, S: 3},
 		Build: func(e *Env) {
+			e.AsyncStore()
 			e.Deliver("A", e.W.C[6])
 			e.Deliver("B", e.W.C[7])
 			e.Deliver("C", e.W.C[9])
+		},
+		Check: commonCheck})
+	out = append(out, Scenario{Name: "SL3-adjacent-heads-growing-one-pending-range", Batch: batch, Cfg: WCfg{N: 12, S: 3},
+		Build: func(e *Env) {
+			e.AsyncStore()
+			e.DeliverSeq("ABC", []string{"A", "B", "C"}, []*vk.H{e.W.C[6], e.W.C[7], e.W.C[8]})
+			e.Deliver("D", e.W.C[9])
 		},
 		Check: commonCheck})
 	out = append(out, Scenario{Name: "SL2-getter-error-then-next-head", Batch: batch, Cfg: WCfg{N: 12, S: 3, GetterFail: 1},
